@@ -19,13 +19,15 @@ type ModSet struct {
 	ranges map[*ssa.Range]bool
 	heaps  map[string]bool
 	maps   map[string]bool
+	oldH   map[string]bool // heaps in which memory that existed before may be written
+	oldM   map[string]bool
 	alloc  bool
 	rh     bool
 	all    bool
 }
 
 func newModSet() *ModSet {
-	return &ModSet{cells: map[*ssa.Alloc]bool{}, ranges: map[*ssa.Range]bool{}, heaps: map[string]bool{}, maps: map[string]bool{}}
+	return &ModSet{cells: map[*ssa.Alloc]bool{}, ranges: map[*ssa.Range]bool{}, heaps: map[string]bool{}, maps: map[string]bool{}, oldH: map[string]bool{}, oldM: map[string]bool{}}
 }
 
 func (m *ModSet) union(o *ModSet, withCells bool) {
@@ -42,6 +44,12 @@ func (m *ModSet) union(o *ModSet, withCells bool) {
 	}
 	for k := range o.maps {
 		m.maps[k] = true
+	}
+	for k := range o.oldH {
+		m.oldH[k] = true
+	}
+	for k := range o.oldM {
+		m.oldM[k] = true
 	}
 	m.alloc = m.alloc || o.alloc
 	m.rh = m.rh || o.rh
@@ -71,13 +79,13 @@ func (vc *VC) reachableKeys(t types.Type, ms *ModSet, seen map[string]bool) {
 	}
 	switch tt := types.Unalias(t).Underlying().(type) {
 	case *types.Pointer:
-		ms.heaps[vc.u.heapKey(tt.Elem())] = true
+		ms.heaps[vc.u.heapKey(tt.Elem())], ms.oldH[vc.u.heapKey(tt.Elem())] = true, true
 		vc.reachableKeys(tt.Elem(), ms, seen)
 	case *types.Slice:
-		ms.heaps[vc.u.heapKey(tt.Elem())] = true
+		ms.heaps[vc.u.heapKey(tt.Elem())], ms.oldH[vc.u.heapKey(tt.Elem())] = true, true
 		vc.reachableKeys(tt.Elem(), ms, seen)
 	case *types.Map:
-		ms.maps[vc.u.mapKey(tt)] = true
+		ms.maps[vc.u.mapKey(tt)], ms.oldM[vc.u.mapKey(tt)] = true, true
 		vc.reachableKeys(tt.Key(), ms, seen)
 		vc.reachableKeys(tt.Elem(), ms, seen)
 	case *types.Struct:
@@ -103,13 +111,19 @@ func (vc *VC) modsOfBlocks(fn *ssa.Function, in func(*ssa.BasicBlock) bool, dept
 					ms.cells[a] = true
 				} else if _, ok := root.(*ssa.Global); ok {
 					// globals are cells of the engine; treated as always unknown
-				} else if ia, ok := root.(*ssa.IndexAddr); ok {
-					ms.heaps[vc.u.heapKey(deref(ia.Type()))] = true
-				} else {
+				} else if a, ok := root.(*ssa.Alloc); ok && a.Heap && in(a.Block()) {
+					// object allocated inside the region: fresh memory only
 					ms.heaps[vc.u.heapKey(deref(root.Type()))] = true
+				} else if ia, ok := root.(*ssa.IndexAddr); ok {
+					k := vc.u.heapKey(deref(ia.Type()))
+					ms.heaps[k], ms.oldH[k] = true, true
+				} else {
+					k := vc.u.heapKey(deref(root.Type()))
+					ms.heaps[k], ms.oldH[k] = true, true
 				}
 			case *ssa.MapUpdate:
-				ms.maps[vc.u.mapKey(types.Unalias(x.Map.Type()).Underlying().(*types.Map))] = true
+				k := vc.u.mapKey(types.Unalias(x.Map.Type()).Underlying().(*types.Map))
+				ms.maps[k], ms.oldM[k] = true, true
 			case *ssa.Alloc:
 				if x.Heap {
 					ms.alloc = true
@@ -159,11 +173,14 @@ func (vc *VC) modsOfCall(x *ssa.Call, ms *ModSet, depth int) {
 		switch b.Name() {
 		case "append":
 			ms.alloc = true
-			ms.heaps[vc.u.heapKey(types.Unalias(c.Args[0].Type()).Underlying().(*types.Slice).Elem())] = true
+			k := vc.u.heapKey(types.Unalias(c.Args[0].Type()).Underlying().(*types.Slice).Elem())
+			ms.heaps[k], ms.oldH[k] = true, true
 		case "copy":
-			ms.heaps[vc.u.heapKey(types.Unalias(c.Args[0].Type()).Underlying().(*types.Slice).Elem())] = true
+			k := vc.u.heapKey(types.Unalias(c.Args[0].Type()).Underlying().(*types.Slice).Elem())
+			ms.heaps[k], ms.oldH[k] = true, true
 		case "delete":
-			ms.maps[vc.u.mapKey(types.Unalias(c.Args[0].Type()).Underlying().(*types.Map))] = true
+			k := vc.u.mapKey(types.Unalias(c.Args[0].Type()).Underlying().(*types.Map))
+			ms.maps[k], ms.oldM[k] = true, true
 		}
 		return
 	}
@@ -218,9 +235,17 @@ func (vc *VC) conMods(con *Contract, ms *ModSet) {
 	for _, m := range con.Modifies {
 		switch m.Kind {
 		case "heap":
-			ms.heaps[vc.u.heapKey(m.T)] = true
+			k := vc.u.heapKey(m.T)
+			ms.heaps[k], ms.oldH[k] = true, true
 		case "maps":
-			ms.maps[vc.u.mapKey(types.Unalias(m.T).Underlying().(*types.Map))] = true
+			k := vc.u.mapKey(types.Unalias(m.T).Underlying().(*types.Map))
+			ms.maps[k], ms.oldM[k] = true, true
+		case "new":
+			if mt, ok := types.Unalias(m.T).Underlying().(*types.Map); ok {
+				ms.maps[vc.u.mapKey(mt)] = true
+			} else {
+				ms.heaps[vc.u.heapKey(m.T)] = true
+			}
 		case "rh":
 			ms.rh = true
 		case "all":
@@ -233,10 +258,10 @@ func (vc *VC) havoc(fr *Frame, st *State, ms *ModSet, why string) {
 	if ms.all {
 		// everything that has a name in this state, plus all heaps/maps known
 		for k := range vc.u.heapKeys {
-			ms.heaps[k] = true
+			ms.heaps[k], ms.oldH[k] = true, true
 		}
 		for k := range vc.u.mapKeys {
-			ms.maps[k] = true
+			ms.maps[k], ms.oldM[k] = true, true
 		}
 		ms.alloc, ms.rh = true, true
 	}
@@ -383,13 +408,38 @@ func (vc *VC) enterLoop(fr *Frame, li *loopInfo, cur *State) *State {
 			}
 		}
 	}
+	// heaps/maps in which the loop only creates new objects: everything that
+	// existed when the loop was entered keeps its value
+	for _, k := range sortedKeys(ms.heaps) {
+		if ms.oldH[k] || ms.all {
+			continue
+		}
+		h0, ok := cur.heaps[k]
+		if !ok {
+			h0 = "H0_" + k
+		}
+		vc.assume(fmt.Sprintf("(forall ((a Int)) (! (=> (< a %s) (= (select %s a) (select %s a))) :pattern ((select %s a))))", cur.alloc, st.heaps[k], h0, st.heaps[k]))
+		vc.bytesFrame(k, h0, st.heaps[k], cur.alloc)
+	}
+	for _, k := range sortedKeys(ms.maps) {
+		if ms.oldM[k] || ms.all {
+			continue
+		}
+		d0, v0, c0 := cur.mdom[k], cur.mval[k], cur.mcard[k]
+		if d0 == "" {
+			d0, v0, c0 = "MD0_"+k, "MV0_"+k, "MC0_"+k
+		}
+		for _, pr := range [][2]string{{st.mdom[k], d0}, {st.mval[k], v0}, {st.mcard[k], c0}} {
+			vc.assume(fmt.Sprintf("(forall ((m Int)) (! (=> (< m %s) (= (select %s m) (select %s m))) :pattern ((select %s m))))", cur.alloc, pr[0], pr[1], pr[0]))
+		}
+	}
 	// a map range over a map type the loop never writes: every visited key is a key
 	for r, rs := range fr.rangeOf {
 		if !ms.ranges[r] || rs.m == nil {
 			continue
 		}
 		mt, ok := types.Unalias(rs.m.T).Underlying().(*types.Map)
-		if !ok || ms.maps[vc.u.mapKey(mt)] || ms.all {
+		if !ok || ms.oldM[vc.u.mapKey(mt)] || ms.all {
 			continue
 		}
 		if v, ok := st.cells[rs.visCell]; ok {
